@@ -151,7 +151,7 @@ func (c06) Info(t core.Tier) core.Info {
 		Level: "exploration",
 		Rule: fmt.Sprintf("every call is wrapped in recover(); a worker death is attributed to its case through the BEGIN log and re-run alone. workload: (a) %d hostile Go values (named and unnamed maps incl. non-string / named keys and many element types, structs with unexported / embedded / pointer fields, typed nils of every kind, pointer chains to depth 5, NaN/Inf/-0, extreme integers, invalid UTF-8, 1 MB strings, arrays, channels, funcs) x %d schema kinds x 4 placements (top level, struct field, slice element, behind pointer); "+
 			"(b) random schemas with a hostile value injected at a random position; (c) %d JSON documents (every prefix of a valid document, wrong top-level types, {}, null, duplicate keys, 1e999, depth 12000, BOM, NUL, invalid UTF-8, trailing data, 1 MB strings) through zjson and zhttp (Struct and Ptr(Struct) schemas, faulty readers failing after k bytes and 1-byte reads); (d) %d URL-encoded bodies / query strings through zhttp for 5 methods; environment variables through zenv; "+
-			"(e) valid but unusual configuration: schema keys of 1..2048 bytes, 200-field structs, depth-8 nesting, Unicode field names. oracle: Parse returns (issues or not). non-trivial: input whose dynamic type/shape is outside {map[string]any, []any, string, int, float64, bool, time.Time} or malformed wire input; distinct by (input, schema, placement).",
+			"(e) random byte-level mutations (flip, delete, insert, duplicate, truncate) of a valid JSON document and of a valid form through zjson / zhttp; (f) valid but unusual configuration: schema keys of 1..2048 bytes, 200-field structs, depth-8 nesting, Unicode field names. oracle: Parse returns (issues or not). non-trivial: input whose dynamic type/shape is outside {map[string]any, []any, string, int, float64, bool, time.Time} or malformed wire input; distinct by (input, schema, placement).",
 			len(c06Hostile), len(c06Schemas), len(c06JSONDocs()), len(c06Forms)),
 		Assumptions: commonAssumptions,
 		MinDistinct: 1000,
@@ -167,9 +167,68 @@ func c06Counts(t core.Tier) (a, b, cc, d, e int) {
 	return
 }
 
+func c06Mutated(t core.Tier) int { return tierN(t, 1500, 200000) }
+
 func (c06) NumCases(t core.Tier) int {
 	a, b, cc, d, e := c06Counts(t)
-	return a + b + cc + d + e
+	return a + b + cc + d + e + c06Mutated(t)
+}
+
+// mutateBytes applies a few random byte-level edits (flip, delete, insert, duplicate, truncate).
+const c06InsChars = "{}[]\",:\\&=%;+"
+const c06SetChars = "{}[]\",:0-9e.ntf\\u\x00\xff"
+
+func mutateBytes(r *rng.Rand, s string) string {
+	b := []byte(s)
+	for k := r.Range(1, 4); k > 0; k-- {
+		if len(b) == 0 {
+			b = append(b, byte(r.Intn(256)))
+			continue
+		}
+		i := r.Intn(len(b))
+		switch r.Intn(6) {
+		case 0:
+			b[i] ^= byte(1 << uint(r.Intn(8)))
+		case 1:
+			j := i + r.Intn(len(b)-i+1)
+			b = append(b[:i:i], b[j:]...)
+		case 2:
+			ins := []byte{byte(r.Intn(256)), c06InsChars[r.Intn(len(c06InsChars))]}
+			b = append(b[:i:i], append(ins, b[i:]...)...)
+		case 3:
+			j := i + r.Intn(len(b)-i+1)
+			b = append(b[:j:j], append(append([]byte{}, b[i:j]...), b[j:]...)...)
+		case 4:
+			b = b[:i]
+		case 5:
+			b[i] = c06SetChars[r.Intn(len(c06SetChars))]
+		}
+	}
+	return string(b)
+}
+
+func c06MutatedCase(c *core.Ctx) {
+	n := c06WireSchema()
+	b := spec.Build(n, nil)
+	for k := 0; k < 8; k++ {
+		doc := mutateBytes(c.R, c06ValidJSON)
+		d := map[string]any{"schema": "wire schema (see c06.go)", "json_document": trunc(doc, 400)}
+		c06Guard(c, "zjson.Decode (mutated document)", d, func() { run.Parse(b, zjson.Decode(strings.NewReader(doc)), nil).MustNotPanic() })
+		r, _ := http.NewRequest("POST", "/x", strings.NewReader(doc))
+		r.Header.Set("Content-Type", "application/json")
+		c06Guard(c, "zhttp POST json (mutated document)", d, func() { run.Parse(b, zhttp.Request(r), nil).MustNotPanic() })
+		form := mutateBytes(c.R, c06Forms[0])
+		d2 := map[string]any{"schema": "wire schema (see c06.go)", "form_or_query": trunc(form, 400)}
+		r2, _ := http.NewRequest("POST", "/x", strings.NewReader(form))
+		r2.Header.Set("Content-Type", "application/x-www-form-urlencoded")
+		c06Guard(c, "zhttp POST form (mutated)", d2, func() { run.Parse(b, zhttp.Request(r2), nil).MustNotPanic() })
+		if r3, err := http.NewRequest("GET", "/x", nil); err == nil {
+			r3.URL.RawQuery = form
+			c06Guard(c, "zhttp GET query (mutated)", d2, func() { run.Parse(b, zhttp.Request(r3), nil).MustNotPanic() })
+		}
+		c.NonTrivial("mut|" + doc + "|" + form)
+	}
+	c.Count("mutated_wire_documents", 16)
 }
 
 func ordinary(v any) bool {
@@ -243,8 +302,10 @@ func (c06) RunCase(c *core.Ctx) {
 		c06JSON(c, c06JSONDocs()[i-a-b])
 	case i < a+b+cc+d:
 		c06Form(c, c06Forms[i-a-b-cc])
-	default:
+	case i < a+b+cc+d+40:
 		c06Config(c, i-a-b-cc-d)
+	default:
+		c06MutatedCase(c)
 	}
 }
 
